@@ -74,14 +74,17 @@ Section Walk.
     flat_map (fun n => match n with F nm c => [(nm, c)] | D _ _ => [] end) l.
 
   (* a sub-directory survives pruning: not matched by a pattern and, with auto-exclusion,
-     it directly contains a file whose name ends in .cmake (case-sensitive, unfiltered) *)
+     it directly contains a non-excluded file whose name ends in .cmake (case-sensitive) *)
   Definition keep_dir (rel : list str) (n : node) : bool :=
     match n with
     | F _ _ => false
     | D nm ch =>
         negb (excl (rel ++ [nm]) true)
         && (negb (ws_auto_exclude st)
-            || existsb (fun c => match c with F fn _ => lc_cmake_suffix fn | D _ _ => false end) ch)
+            || existsb (fun c => match c with
+                                 | F fn _ => lc_cmake_suffix fn && negb (excl (rel ++ [nm; fn]) false)
+                                 | D _ _ => false
+                                 end) ch)
     end.
 
   (* one os.walk step: (processed?, actions) *)
